@@ -167,7 +167,6 @@ func init() {
 			r.Require("extractions_agree", int64(c.Pick(400, 5000)))
 			r.Require("delivery_form", 50)
 			r.Require("delivery_redirect", 50)
-			r.Require("delivery_xml-body", 5)
 			r.Require("preceded_by_failed_callback", 50)
 			r.Require("callbacks_with_failing_user_lookup", 100)
 			zone := func(name string, off int) func() {
